@@ -27,7 +27,9 @@ SPECIAL = [
     '5 March 2020 09:00', '0001-01-01', '2021-06-07T08:09:10Z', '#hash',
     '\\d+', '\\n', '127.0.0.1', 'user@example.com', 'C:\\Users\\x',
     # valid UTF-8 that encoding sniffers take for something else
-    '~{1!~} caf\u00e9', '+AGE-+AGI- d\u00e9j\u00e0', '\ufeffBOM inside']
+    '~{1!~} caf\u00e9', '+AGE-+AGI- d\u00e9j\u00e0', '\ufeffBOM inside',
+    # two machine-specific things on one line
+    'copied {CWD}/in.dat to {TMPDIR}/out.dat', '{USER}@{HOST}:{HOME}']
 # extra (ignored) arguments on the command line: they end up, quoted, in the
 # command string that gentest embeds in the generated script
 CMD_ARGS = ['plain', 'two words', "it's", 'say "hi"', 'C:\\Users\\x', '\\N{x}',
